@@ -375,6 +375,18 @@ def explore_shard(acc, shard):
                 acc.outcome("note a thousand measures out")
                 if fails:
                     report(acc, layer, case, fails)
+        if REUSE_MAX[0] > 2:
+            # thorough only: a beat whose denominator exceeds a million (a measure of four million rows)
+            stream = [(Fraction(1, 1000001), 0, "1", 0, None)]
+            case = {"kind": "stream", "cols": 1, "stream": fmt_stream(stream)}
+            core.guard(acc, case)
+            fails = check_stream(stream, 1, reuse=False)
+            acc.count("evaluations")
+            acc.count("states")
+            acc.count("nontrivial")
+            acc.outcome("beat with a denominator above a million")
+            if fails:
+                report(acc, layer, case, [dict(f, expected=str(f.get("expected"))[:200], observed=str(f.get("observed"))[:200]) for f in fails])
         acc.sample(layer, case)
     elif kind == "T":
         _, shapes = shard
